@@ -5,7 +5,7 @@ import vlib, elfgen, hashgen
 import props.C02 as C02
 
 LEVEL = "proof"
-SHARD_TIMEOUT = 25
+SHARD_TIMEOUT = 10
 RULE = ("adversarial structures: SysV hash chains with cycles of every length 1..8 and self-loops over named and unnamed symbols, "
         "GNU chains without a stop bit, version sections with next = 0 / next -> overlapping records / counts 2^16-1 and 2^32-1 / aux "
         "offsets 2^32-1 / aux chains that keep linking past the declared count / vd_ndx != vd_cnt, note buffers of garbage, entry "
